@@ -89,9 +89,11 @@ theorem C03_src_points_labelled : ∀ c ∈ Gen.bookCalls,
     (c.callee = "add_new_point" → c.args = ["xnew", "rvec_list[0, :]", "self.nx"] ∧ c.kwargs = []) := by
   decide +kernel
 
-/-- every further sample goes to a row by `add_new_sample(k, rvec_extra=rvec_list[i, :])` -/
+/-- every further sample goes to a row by `add_new_sample(k, rvec_extra=rvec_list[i, :])` where `i` is the variable of
+    the innermost enclosing loop `for i in range(1, num_samples_run)`: samples 2, 3, … of the group just evaluated, each
+    exactly once -/
 theorem C03_src_samples : ∀ c ∈ Gen.bookCalls, c.callee = "add_new_sample" →
-    c.args.length = 1 ∧ c.kwargs = [("rvec_extra", "rvec_list[i, :]")] := by
+    c.args.length = 1 ∧ c.kwargs = [("rvec_extra", "rvec_list[i, :]")] ∧ c.loop = "i in range(1, num_samples_run)" := by
   decide +kernel
 
 /-- every `save_point` hands over an absolute point together with (a) the mean of the samples ACTUALLY taken
@@ -104,6 +106,12 @@ theorem C03_src_saves : ∀ c ∈ Gen.bookCalls, c.callee = "save_point" →
      c.args = ["self.model.xopt(abs_coordinates=True)", "self.model.ropt()", "self.model.nsamples[self.model.kopt]",
                "self.model.eval_num[self.model.kopt]"] ∨
      c.args = ["x_in_abs_coords_to_save", "rvec_to_save", "nsamples_to_save", "self.nx"]) := by
+  decide +kernel
+
+/-- `add_new_point` (written for a full interpolation set; the L1 model's `addPoint` rejects it otherwise) is called
+    only where `self.model.npt() >= self.model.num_pts` has been tested -/
+theorem C03_src_add_new_point_on_full_set : ∀ c ∈ Gen.bookCalls, c.callee = "add_new_point" →
+    (⟨true, "self.model.npt()", ">=", "self.model.num_pts"⟩ : Lit) ∈ c.path := by
   decide +kernel
 
 /-- non-vacuity: the table has calls of each kind -/
